@@ -348,7 +348,7 @@ func TestC18(t *testing.T) {
 				return
 			}
 		}
-		for _, fname := range []string{"pck-crl-endpoint-down", "root-crl-endpoint-down", "tcbinfo-endpoint-down", "leaf-revoked", "tcb-level-out-of-date"} {
+		for _, fname := range []string{"pck-crl-endpoint-down", "root-crl-endpoint-down", "tcbinfo-endpoint-down", "leaf-revoked", "tcb-level-out-of-date", "module-out-of-date-with-lenient-identity-listed-last", "qe-level-revoked", "tcbinfo-signature-corrupt"} {
 			for _, forged := range []bool{false, true} {
 				w2 := mkWorld(gen.Seed() + 10)
 				var f gen.Fault
